@@ -18,7 +18,7 @@ sim::Json generate(const std::string& tier, uint64_t seed, uint64_t index) {
   go.want_names = rng.chance(0.6); go.max_depth = 3;
   gen::Model m = gen::generate(rng, go);
   for (auto& v : m.vars) if (v.lb > v.ub) v.ub = v.lb;
-  sim::Json sc = model_scenario(m, true);
+  sim::Json sc = model_scenario(m, true, rng.chance(0.3));
   if (go.want_names) add_names_files(sc, m, NAMES_FULL);
   std::vector<std::string> opts;
   if (rng.chance(0.3)) opts.push_back("cvt:names=" + std::to_string(rng.below(4)));
